@@ -283,6 +283,33 @@ func genC06(r *rand.Rand, tier string) []Case {
 		}
 		cases = append(cases, c)
 	}
+	// a run of small old tables merged while two or more NEWER tables (over the size limit, few tombstones) stay outside
+	// the run and hold different versions of the same keys: the live tables must keep their age order
+	nn := 4
+	if tier == "thorough" {
+		nn = 100
+	}
+	for i := 0; i < nn; i++ {
+		var keys [][]byte
+		for k := 0; k < 5; k++ {
+			keys = append(keys, []byte(fmt.Sprintf("key%02d", k)))
+		}
+		c := &c06Case{Keys: keys}
+		c.Opts = dbOpts{MemstoreBytes: 1 << 30, Threshold: r.Intn(2), MaxSize: 300, RatioPct: 100, WBuf: 4096, RBuf: 4096}
+		bigv := func() []byte { v := make([]byte, 500+r.Intn(300)); r.Read(v); return v }
+		for t := 0; t < 2+r.Intn(2); t++ {
+			c.Steps = append(c.Steps, dbStep{Op: "put", K: keys[1+t%3], V: []byte(fmt.Sprintf("old%d", t))}, dbStep{Op: "rotate"})
+		}
+		for t := 0; t < 2+r.Intn(2); t++ {
+			c.Steps = append(c.Steps, dbStep{Op: "put", K: keys[0], V: []byte(fmt.Sprintf("version-%d", t))}, dbStep{Op: "put", K: keys[4], V: bigv()})
+			if t == 1 {
+				c.Steps = append(c.Steps, dbStep{Op: "del", K: keys[1]})
+			}
+			c.Steps = append(c.Steps, dbStep{Op: "rotate"})
+		}
+		c.Steps = append(c.Steps, dbStep{Op: "compact"}, dbStep{Op: "put", K: keys[2], V: []byte("late")}, dbStep{Op: "rotate"}, dbStep{Op: "compact"})
+		cases = append(cases, c)
+	}
 	// selection by two different criteria with an ineligible table in between: [over the size limit but mostly
 	// tombstones] [over the limit, clean] ... [small]; the run must be filled across the gap, otherwise the middle
 	// tables' versions win over newer ones
